@@ -174,11 +174,21 @@ Theorem C06_rnd_pick_member : forall {St} (draw : St -> nat -> St * nat) ring,
 Proof. exact @rnd_pick_member_l. Qed.
 Print Assumptions C06_rnd_pick_member.
 
-(* ---- the redirect URL ---- *)
-(* finding F-C06-1: A looks up, B looks up, A continues: A is redirected to B's URL *)
+(* ---- the redirect URL: the code as it is (fix ddf101c: built on a per-request copy of the target) ---- *)
+(* EVERY schedule, any number of requests, any template ($path, $host, both, none): the shared state is
+   never written, and every request that has been answered got the URL made from ITS own path and Host *)
+Theorem C06_redirect_every_schedule : forall tmpl sched reqs,
+  let r := run (rd_step tmpl) sched rd_start (map (fun q => rd_init (fst q) (snd q)) reqs) in
+  fst r = rd_start /\
+  Forall (fun l => rq_at l = DDone -> rq_got l = Some (Ok (rd_own tmpl (rq_path l) (rq_host l)))) (snd r).
+Proof. exact redirect_every_schedule_results_l. Qed.
+Print Assumptions C06_redirect_every_schedule.
+
+(* ---- the redirect URL BEFORE fix ddf101c ([rd_step_unrepaired]: stored on the shared target) ---- *)
+(* finding F-C06-1 (fixed by ddf101c): A looks up, B looks up, A continues: A is redirected to B's URL *)
 Theorem C06_redirect_cross_talk_refuted :
-  exists sched, let '(_, ts) := run (rd_step w_tmpl) sched rd_start [rd_init (bs "/from-A") (bs "old.example"); rd_init (bs "/from-B") (bs "old.example")] in
-    rd_results ts = [Some (Ok (bs "http://new.example/from-B")); Some (Ok (bs "http://new.example/from-B"))]
+  exists sched, let '(_, ts) := run (rd_step_unrepaired w_tmpl) sched rd_start [rd_init_unrepaired (bs "/from-A") (bs "old.example"); rd_init_unrepaired (bs "/from-B") (bs "old.example")] in
+    rd_results_unrepaired ts = [Some (Ok (bs "http://new.example/from-B")); Some (Ok (bs "http://new.example/from-B"))]
     /\ rd_own w_tmpl (bs "/from-A") (bs "old.example") = bs "http://new.example/from-A".
 Proof. exact redirect_cross_talk_refuted_w. Qed.
 Print Assumptions C06_redirect_cross_talk_refuted.
@@ -187,7 +197,7 @@ Print Assumptions C06_redirect_cross_talk_refuted.
    none; whatever earlier requests left on the target) answers every request with the URL it would get
    alone on a fresh table: without overlap there is no cross-request effect *)
 Theorem C06_redirect_serial_history_ok : forall tmpl reqs,
-  rd_results (snd (run (rd_step tmpl) (serial 5 0 (length reqs)) rd_start (map (fun q => rd_init (fst q) (snd q)) reqs)))
+  rd_results_unrepaired (snd (run (rd_step_unrepaired tmpl) (serial 5 0 (length reqs)) rd_start (map (fun q => rd_init_unrepaired (fst q) (snd q)) reqs)))
   = map (fun q => Some (Ok (rd_own tmpl (fst q) (snd q)))) reqs.
 Proof. exact redirect_serial_history_ok_l. Qed.
 Print Assumptions C06_redirect_serial_history_ok.
@@ -200,7 +210,7 @@ Theorem C06_redirect_static_every_schedule : forall tmpl sched reqs, static tmpl
                    | None => rd_at l <> DDone
                    | Some r => r = Ok (rd_own tmpl (rd_path l) (rd_host l))
                    end)
-         (snd (run (rd_step tmpl) sched rd_start (map (fun q => rd_init (fst q) (snd q)) reqs))).
+         (snd (run (rd_step_unrepaired tmpl) sched rd_start (map (fun q => rd_init_unrepaired (fst q) (snd q)) reqs))).
 Proof. exact redirect_static_every_schedule_l. Qed.
 Print Assumptions C06_redirect_static_every_schedule.
 
@@ -217,11 +227,11 @@ Theorem C06_lookup_reads_one_cursor : forall hosts path host f g,
 Proof. exact lookup_pure_one_cursor_l. Qed.
 Print Assumptions C06_lookup_reads_one_cursor.
 
-(* ... and its only effects are on that route's cursor and the chosen target's redirect URL *)
+(* ... and its only effect is on that route's cursor (since ddf101c no target is written) *)
 Theorem C06_lookup_frame : forall hosts path host s r s',
   lookup hosts path host s = (Ok (Some r), s') ->
   (forall id, eq_rid id (lk_route r) = false -> lk_cursor s' id = lk_cursor s id) /\
-  (forall t, Nat.eqb t (lk_target r) = false -> lk_redirect s' t = lk_redirect s t).
+  lk_redirect s' = lk_redirect s.
 Proof. exact lookup_frame_l. Qed.
 Print Assumptions C06_lookup_frame.
 
